@@ -97,6 +97,8 @@ def cast_sequence(value, from_type, options):
 
 def cast_to_binary(value, from_type, options):
     if isinstance(from_type, StringType):
+        if value is None:
+            return None
         # noinspection PyTypeChecker
         return bytearray(value, 'utf-8')
     if isinstance(from_type, BinaryType):
@@ -323,6 +325,8 @@ def cast_to_double(value, from_type, options):
 
 def cast_to_array(value, from_type, to_type, options):
     if isinstance(from_type, ArrayType):
+        if value is None:
+            return None
         caster = get_caster(
             from_type=from_type.elementType, to_type=to_type.elementType, options=options
         )
@@ -335,6 +339,8 @@ def cast_to_array(value, from_type, to_type, options):
 
 def cast_to_map(value, from_type, to_type, options):
     if isinstance(from_type, MapType):
+        if value is None:
+            return None
         key_caster = get_caster(
             from_type=from_type.keyType, to_type=to_type.keyType, options=options
         )
@@ -362,6 +368,8 @@ def get_struct_caster(from_type, to_type, options):
     ]
 
     def do_cast_to_struct(value):
+        if value is None:
+            return None
         return create_row(
             names,
             (caster(sub_value) for caster, sub_value in zip(casters, value)),
